@@ -59,6 +59,29 @@ def run(ctx: Ctx) -> int:
         ctx.count(("shape", t), bucket="column-count")
         if s.shape[1] != c.num_detectors + c.num_observables:
             ctx.violation("columns:" + t.replace("\n", ";")[:60], f"{s.shape[1]} columns, expected {c.num_detectors}+{c.num_observables}", {"text": t, "det": True})
+    # which columns are detectors and which are observables, for every way of asking (deterministic circuits, incl. NO observable / NO detector)
+    import numpy as np
+    for text, dets, obs in [("X 0 2\nM 0 1 2\nDETECTOR rec[-3]\nDETECTOR rec[-2]\nDETECTOR rec[-1]", [1, 0, 1], []),
+                            ("X 1\nM 0 1\nOBSERVABLE_INCLUDE(0) rec[-1]\nOBSERVABLE_INCLUDE(2) rec[-2]", [], [1, 0, 0]),
+                            ("X 0\nM 0 1\nDETECTOR rec[-1]\nDETECTOR rec[-2]\nOBSERVABLE_INCLUDE(1) rec[-2]", [0, 1], [0, 1])]:
+        try:
+            smp = tsim.Circuit(text).compile_detector_sampler(seed=3)
+            plain = np.asarray(smp.sample(3)).astype(int)
+            app = np.asarray(smp.sample(3, append_observables=True)).astype(int)
+            pre = np.asarray(smp.sample(3, prepend_observables=True)).astype(int)
+            sep = smp.sample(3, separate_observables=True)
+            sd, so = np.asarray(sep[0]).astype(int), np.asarray(sep[1]).astype(int)
+        except Exception as e:
+            ctx.violation("detector-columns-raises:" + text.replace("\n", ";")[:50], f"detector sampler raised {e!r}", {"text": text, "det": True})
+            continue
+        ctx.count(("cols", text), bucket="detector-observable-columns")
+        want = {"plain": [dets] * 3, "append": [dets + obs] * 3, "prepend": [obs + dets] * 3, "separate-detectors": [dets] * 3, "separate-observables": [obs] * 3}
+        got = {"plain": plain.tolist(), "append": app.tolist(), "prepend": pre.tolist(), "separate-detectors": sd.tolist(), "separate-observables": so.tolist()}
+        for k_ in want:
+            if got[k_] != want[k_] and not (want[k_] == [[]] * 3 and np.asarray(got[k_]).size == 0):
+                ctx.violation(f"detector-columns-{k_}:" + text.replace("\n", ";")[:50], f"{k_}: rows {got[k_]}, expected {want[k_]} (detectors then observables 0..K-1)",
+                              {"text": text, "det": True, "flag": k_})
+                break
     ctx.cov.update({"stats": stats})
     if ctx.broken and not ctx.violations:
         report_broken_without_input(ctx)
